@@ -32,6 +32,9 @@ class HarnessError(Exception):
     pass
 
 
+_MISSING = object()
+
+
 def _akey(name: str, shape) -> str:
     """Array inputs are keyed by name and shape: the same logical name used with two
     shapes (a block and its one-item-longer variant) denotes two independent inputs."""
@@ -73,6 +76,8 @@ class SymInputs(_Base):
         self.BytesIO = shims.SymIO
         self._empty_n = 0
         self._now_n = 0
+        self._patches = []
+        self._fs = None
         symnp.EMPTY_HOOK = self._empty_leaf
         shims.NOW_HOOK = self._now
 
@@ -190,6 +195,42 @@ class SymInputs(_Base):
         self.vars[name] = ("int", v)
         self.ctx.add(z3.And(v >= 0, v < 2**31))
         return shims.SymDate(SInt(v))
+
+    def payload(self, name: str, size):
+        """`size` bytes of arbitrary content (uninterpreted function of the index)."""
+        from . import symfile as SF
+
+        fn = z3.Function(name, z3.IntSort(), z3.BitVecSort(8))
+        self.vars[name] = ("fn", fn, SF.zt(size))
+        return SF.OpaquePayload(fn, size, name)
+
+    def fs(self):
+        from .fsapi import SymFSApi
+
+        self._fs = SymFSApi(self)
+        return self._fs
+
+    def prefer(self, cond) -> None:
+        """Soft constraint used only when a model is produced (small replay inputs)."""
+        self.ctx.prefs.append(E.as_z3_bool(cond))
+
+    def patch(self, obj, attr: str, value) -> None:
+        self._patches.append((obj, attr, obj.__dict__.get(attr, _MISSING) if isinstance(obj, type) else getattr(obj, attr, _MISSING)))
+        setattr(obj, attr, value)
+
+    def cleanup(self) -> None:
+        for obj, attr, old in reversed(self._patches):
+            if old is _MISSING:
+                try:
+                    delattr(obj, attr)
+                except AttributeError:
+                    pass
+            else:
+                setattr(obj, attr, old)
+        self._patches = []
+        if getattr(self, "_fs", None) is not None:
+            self._fs.cleanup()
+            self._fs = None
 
     def shaped(self, name: str, rank: int, dt: str = "<f4"):
         """ndarray of the given rank whose extents are arbitrary non-negative ints."""
@@ -356,6 +397,11 @@ class SymInputs(_Base):
                 out[name] = [ev(t) for t in spec[1]]
             elif kind == "bool":
                 out[name] = ev(spec[1])
+            elif kind == "fn":
+                n = ev(spec[2])
+                if n > 65536:
+                    raise HarnessError(f"payload {name} too large to materialise for replay ({n} bytes)")
+                out[name] = [ev(spec[1](z3.IntVal(i))) for i in range(max(0, n))]
         return out
 
     def eval_observations(self, model) -> list:
@@ -522,6 +568,8 @@ class ConcInputs(_Base):
         self.src_root = src_root or SRC_ROOT
         self._mods: Dict[str, Any] = {}
         self._patched: List[tuple] = []
+        self._patches = []
+        self._fs = None
 
     # -- modules -----------------------------------------------------------------------
     def _ensure_path(self) -> None:
@@ -648,6 +696,40 @@ class ConcInputs(_Base):
 
     def date(self, name: str):
         return _rdt.datetime.fromtimestamp(int(self._get(name, 1_000_000_000)))
+
+    def payload(self, name: str, size):
+        vals = list(self._get(name, []))
+        size = int(size)
+        vals = (vals + [0] * size)[:size]
+        return bytes(vals)
+
+    def fs(self):
+        from .fsapi import ConcFSApi
+
+        self._fs = ConcFSApi(self)
+        return self._fs
+
+    def prefer(self, cond) -> None:
+        pass
+
+    def patch(self, obj, attr: str, value) -> None:
+        self._patches.append((obj, attr, obj.__dict__.get(attr, _MISSING) if isinstance(obj, type) else getattr(obj, attr, _MISSING)))
+        setattr(obj, attr, value)
+
+    def cleanup(self) -> None:
+        for obj, attr, old in reversed(self._patches):
+            if old is _MISSING:
+                try:
+                    delattr(obj, attr)
+                except AttributeError:
+                    pass
+            else:
+                setattr(obj, attr, old)
+        self._patches = []
+        if getattr(self, "_fs", None) is not None:
+            self._fs.cleanup()
+            self._fs = None
+        self.unpatch()
 
     def shaped(self, name: str, rank: int, dt: str = "<f4"):
         shape = tuple(int(self._get(f"{name}.dim{k}", 0)) for k in range(rank))
